@@ -26,6 +26,8 @@ use super::envelope::EnvelopeCase;
 /// * `.elided` is a byte string of length 32.
 impl CBORTagged for Envelope {
     fn cbor_tags() -> Vec<Tag> {
+        #[cfg(bc_envelope_verif)]
+        crate::verif_hooks::emit("blip", "TAGS");
         tags_for_values(&[tags::TAG_ENVELOPE])
     }
 }
